@@ -840,18 +840,21 @@ impl<'a> WriteTxn<'a> {
                 })?;
             }
 
-            for edge in run.iter_edges() {
-                wal.append(&WalRecord::CreateEdge {
-                    src: edge.src,
-                    rel: edge.rel,
-                    dst: edge.dst,
-                })?;
-            }
+            // Tombstones are logged before creates: on replay `tombstone_edge` erases a staged
+            // edge with the same key, so a delete + re-create in one transaction must replay
+            // in that order to rebuild the same run.
             for node in run.iter_tombstoned_nodes() {
                 wal.append(&WalRecord::TombstoneNode { node })?;
             }
             for edge in run.iter_tombstoned_edges() {
                 wal.append(&WalRecord::TombstoneEdge {
+                    src: edge.src,
+                    rel: edge.rel,
+                    dst: edge.dst,
+                })?;
+            }
+            for edge in run.iter_edges() {
+                wal.append(&WalRecord::CreateEdge {
                     src: edge.src,
                     rel: edge.rel,
                     dst: edge.dst,
